@@ -63,6 +63,7 @@ type Exec struct {
 	noSpec      bool
 	Merged      int
 	condMemo    map[*Term]*Term
+	boundMemo   map[*Term]*termBounds
 	noResolve   bool
 	Resolved    int
 	initLenient int
@@ -168,11 +169,26 @@ func (ex *Exec) resetPath(prefix []int) {
 	ex.sched = nil
 	ex.initLenient = 0
 	ex.condMemo = map[*Term]*Term{}
+	ex.boundMemo = map[*Term]*termBounds{}
 	ex.specDepth = 0
 	if ex.specFailed == nil {
 		ex.specFailed = map[ssa.Instruction]bool{}
 	}
 	condResolver = ex.resolveCond
+}
+
+type termBounds struct {
+	hasLo, hasHi bool
+	lo, hi       uint64 // proven under the path condition: lo <= t <= hi (unsigned)
+}
+
+func (ex *Exec) boundsFor(t *Term) *termBounds {
+	b, ok := ex.boundMemo[t]
+	if !ok {
+		b = &termBounds{}
+		ex.boundMemo[t] = b
+	}
+	return b
 }
 
 // resolveCond returns TTrue / TFalse when the path condition decides c, else c itself.
@@ -184,7 +200,50 @@ func (ex *Exec) resolveCond(c *Term) *Term {
 	if r, ok := ex.condMemo[c]; ok {
 		return r
 	}
+	// monotone families: k <u t and t <u k for constants k
+	if c.Op == OpUlt {
+		if k, ok := c.Args[0].ConstVal(); ok {
+			b := ex.boundsFor(c.Args[1])
+			if b.hasLo && k < b.lo { // proven: lo <= t
+				return TTrue
+			}
+			if b.hasHi && k >= b.hi { // proven: t <= hi
+				return TFalse
+			}
+		} else if k, ok := c.Args[1].ConstVal(); ok {
+			b := ex.boundsFor(c.Args[0])
+			if b.hasHi && b.hi < k {
+				return TTrue
+			}
+			if b.hasLo && b.lo >= k {
+				return TFalse
+			}
+		}
+	}
 	r := c
+	defer func() {
+		// learn bounds from decided comparisons with constants
+		if c.Op != OpUlt || (r != TTrue && r != TFalse) {
+			return
+		}
+		if k, ok := c.Args[0].ConstVal(); ok { // k <u t
+			b := ex.boundsFor(c.Args[1])
+			if r == TTrue && (!b.hasLo || k+1 > b.lo) {
+				b.hasLo, b.lo = true, k+1
+			}
+			if r == TFalse && (!b.hasHi || k < b.hi) {
+				b.hasHi, b.hi = true, k
+			}
+		} else if k, ok := c.Args[1].ConstVal(); ok { // t <u k
+			b := ex.boundsFor(c.Args[0])
+			if r == TTrue && k > 0 && (!b.hasHi || k-1 < b.hi) {
+				b.hasHi, b.hi = true, k-1
+			}
+			if r == TFalse && (!b.hasLo || k > b.lo) {
+				b.hasLo, b.lo = true, k
+			}
+		}
+	}()
 	if ex.solver.Check(ex.pc, c) == Unsat {
 		r = TFalse
 	} else if ex.solver.Check(ex.pc, Not(c)) == Unsat {
@@ -192,6 +251,9 @@ func (ex *Exec) resolveCond(c *Term) *Term {
 	}
 	ex.condMemo[c] = r
 	ex.Resolved++
+	if condLog != nil {
+		fmt.Fprintf(condLog, "%v\t%s\n", r == c, smtInline(c, 3))
+	}
 	return r
 }
 
@@ -669,6 +731,14 @@ blockLoop:
 			panic(unsupported("block without terminator"))
 		}
 		prev, block = block, next
+	}
+}
+
+var condLog *os.File
+
+func init() {
+	if p := os.Getenv("VSYM_CONDLOG"); p != "" {
+		condLog, _ = os.Create(p)
 	}
 }
 
